@@ -191,7 +191,19 @@ pub fn random_case(seed: u64, label: &str, index: u64, mix: Mix) -> HistoryCase 
             },
         },
         Mix::Names => match r.below(10) {
-            0..=6 => (Profile::adversarial(), "adversarial"),
+            0 => (
+                Profile {
+                    pool: gen::Pool::SuffixClash,
+                    max_depth: 3,
+                    max_children: 7,
+                    n_elem_names: (3, 7),
+                    n_attr_names: (3, 8),
+                    n_docs: (1, 4),
+                    ..Profile::general()
+                },
+                "suffix-clash",
+            ),
+            1..=6 => (Profile::adversarial(), "adversarial"),
             7 => (
                 if r.chance(1, 4) {
                     Profile { pool: gen::Pool::Adversarial, ..Profile::deep() }
